@@ -135,7 +135,7 @@ def facts(cfg="dev", use_cache=True, repo=REPO):
                 fh.write("%.1f\n" % (time.time() - t0))
             # keep the cache small: drop older fact stores of this cfg
             olds = sorted(glob.glob(os.path.join(CACHE, "facts-%s-*" % cfg)), key=os.path.getmtime)
-            for o in olds[:-6]:
+            for o in olds[:-16]:
                 shutil.rmtree(o, ignore_errors=True)
         out = {}
         for f in EXPECTED:
